@@ -309,6 +309,79 @@ func decodedBitflips(d *donor, stride int, yield func(Mutant)) {
 	}
 }
 
+// lookalikeHeaders: JWS envelopes genuinely signed by the donor's leaf key
+// whose protected header carries, next to the specification's members, members
+// whose names differ from them only under case folding (ASCII upper case,
+// U+017F LONG S, U+212A KELVIN SIGN) with OTHER values. What such an envelope
+// says is what its exact-named members say: it may be rejected, but if it is
+// accepted the returned attributes are the decoding of the exact-named ones.
+func lookalikeHeaders(d *donor, yield func(Mutant)) {
+	if d.mt != sims.JWS || d.ch == nil || len(d.jws.Prot) == 0 {
+		return
+	}
+	alg := envcodec.KeyAlg(d.ch.Keys[0].Public())
+	if alg == nil {
+		return
+	}
+	fold := func(name string) []string {
+		var out []string
+		if i := strings.LastIndex(name, "s"); i >= 0 {
+			out = append(out, name[:i]+"\u017f"+name[i+1:])
+		}
+		if i := strings.LastIndex(name, "S"); i >= 0 {
+			out = append(out, name[:i]+"\u017f"+name[i+1:])
+		}
+		if i := strings.LastIndex(name, "k"); i >= 0 {
+			out = append(out, name[:i]+"\u212a"+name[i+1:])
+		}
+		out = append(out, strings.ToUpper(name))
+		return out
+	}
+	other := map[string]json.RawMessage{
+		envcodec.JSignTime: envcodec.JTime(sims.SignTime.Add(-4000 * time.Hour)),
+		envcodec.JAuthTime: envcodec.JTime(sims.SignTime.Add(-4000 * time.Hour)),
+		envcodec.JExpiry:   envcodec.JTime(sims.SignTime.Add(900000 * time.Hour)),
+		envcodec.JScheme:   envcodec.JStr("notary.x509.signingAuthority"),
+		"cty":              envcodec.JStr("application/x-never-signed"),
+	}
+	for _, m := range d.jws.Prot {
+		val, ok := other[m.Name]
+		if !ok {
+			continue
+		}
+		if m.Name == envcodec.JScheme && strings.Contains(string(m.Raw), "signingAuthority") {
+			val = envcodec.JStr("notary.x509")
+		}
+		for _, alias := range fold(m.Name) {
+			if alias == m.Name {
+				continue
+			}
+			for _, first := range []bool{false, true} {
+				ms := append([]envcodec.Member{}, d.jws.Prot...)
+				if first {
+					ms = append([]envcodec.Member{{Name: alias, Raw: val}}, ms...)
+				} else {
+					ms = append(ms, envcodec.Member{Name: alias, Raw: val})
+				}
+				prot := envcodec.ProtectedJSON(ms)
+				b := &envcodec.JWSBuild{ProtRaw: prot, Payload: d.jws.Payload, Alg: alg, Key: d.ch.Keys[0].Priv, Chain: d.jws.Chain, Agent: d.jws.Agent}
+				data, err := envcodec.BuildJWS(b)
+				if err != nil {
+					continue
+				}
+				if dec, derr := envcodec.DecodeJWS(data); derr == nil {
+					recordSigned(d.ch.Certs[0].RawSubjectPublicKeyInfo, dec.Signed)
+				}
+				where := "last"
+				if first {
+					where = "first"
+				}
+				yield(Mutant{MT: d.mt, Class: "lookalike", Region: "protected", Desc: fmt.Sprintf("%s re-signed with look-alike member %q (%s) next to %q", d.name, alias, where, m.Name), Data: data})
+			}
+		}
+	}
+}
+
 // dualChains builds COSE envelopes that carry an x5chain in BOTH buckets: the
 // protected (signed) one names one certificate chain, the unprotected one
 // another. The envelope's chain is the unprotected header's; whoever signed
@@ -1071,6 +1144,7 @@ func run(r *core.Run) int {
 		// two flips at once, both inside what the signature covers or one there
 		// and one in the signature (errors that might cancel out)
 		doubleFlips(d, r.Rand("double/"+d.name), r.Pick(150, 6000), add)
+		lookalikeHeaders(d, add)
 	}
 	dualChains(c, add)
 	splices(c, add)
